@@ -10,6 +10,11 @@ Case kinds (all JSON, all randomness from the run's PRNG):
   labels      ids assumed by a packaged model's metrics vs ids its tokeniser produces: the driver
               evaluates `labelsAgree` on introspected constants; the oracle evaluates the model's real
               eval metrics on real tokeniser output against by-name reference metrics
+  loss        train losses of the packaged models (StackOverflow with/without expected_length, Shakespeare,
+              the EMNIST/CIFAR classifiers, and every fedjax.training.tasks configuration built with the
+              download functions stubbed by synthetic in-memory clients): equal to an independent numpy
+              reference that ignores the dataset's PAD positions, unchanged when the predictions at PAD
+              positions change, zero on all-PAD rows, row independent (oracle only)
   so_tok      several StackOverflow preprocessors created from ONE tokenizer with different max_length
               values in various create/use interleavings (directly, through the raw tf.function, and
               lazily through an SQLite-backed FederatedData): every output has its OWN max_length and
@@ -131,9 +136,11 @@ class C20(core.Property):
     for _ in range(40 if quick else 200):
       yield self._gen_emnist_id(rng)
     # label agreement first among the expensive ones: it is a configuration property
-    for i in range(24 if quick else 160):
+    for i in range(20 if quick else 160):
       yield self._gen_labels(rng, 'shakespeare' if i % 2 == 0 else 'stackoverflow')
-    for i in range(12 if quick else 60):
+    for c in self._gen_loss(rng, quick):
+      yield c
+    for i in range(10 if quick else 60):
       yield self._gen_so_tok(rng)
     for i in range(70 if quick else 150):
       yield self._gen_cifar(rng)
@@ -234,6 +241,30 @@ class C20(core.Property):
     return {'kind': 'labels', 'task': task, 'nv': nv, 'L': rng.choice([3, 6]), 'sents': sents,
             'pred': rng.choice(['synthetic', 'synthetic', 'model']), 'seed': rng.randrange(10**6)}
 
+  def _gen_loss(self, rng, quick):
+    from fedjax.training import tasks as tasks_mod
+    for name in tasks_mod.ALL_TASKS:
+      for _ in range(1 if quick else 4):
+        yield {'kind': 'loss', 'what': 'task', 'task': name, 'seed': rng.randrange(10**6)}
+    els = [13.3, None, 2.5, 13.3, 1.0, None, 20.0, 13.3, 0.5, None] if quick else [13.3, None, 2.5, 1.0, 20.0] * 6
+    for el in els:
+      nv = rng.choice([2, 9])
+      sents = []
+      for _ in range(rng.randrange(1, 5)):
+        words = [rng.choice(['w%d' % rng.randrange(nv), 'zzz']) for _ in range(rng.choice([1, 1, 2, 3, 5, 8]))]
+        sents.append(' '.join(words))
+      yield {'kind': 'loss', 'what': 'so', 'nv': nv, 'L': rng.choice([3, 6]), 'sents': sents, 'el': el,
+             'seed': rng.randrange(10**6)}
+    for _ in range(3 if quick else 15):
+      snips = [bytes(rng.choice(b'abc XYZ\r9\x00') for _ in range(rng.randrange(0, 7))).hex()
+               for _ in range(rng.randrange(1, 4))]
+      yield {'kind': 'loss', 'what': 'shk', 'L': rng.choice([2, 3, 4, 6]), 'snips': snips, 'seed': rng.randrange(10**6)}
+    # (the quick tier reaches the other classifiers through their fedjax.training.tasks configurations)
+    for name in (('emnist_stax_dense',) if quick else
+                 ('emnist_conv', 'emnist_dense', 'emnist_logistic', 'emnist_stax_dense', 'cifar100_logistic')):
+      for _ in range(1 if quick else 3):
+        yield {'kind': 'loss', 'what': 'cls', 'model': name, 'seed': rng.randrange(10**6)}
+
   def _gen_so_tok(self, rng):
     nv = rng.choice([2, 9])
     sents = []
@@ -274,6 +305,31 @@ class C20(core.Property):
   # ------------------------------------------------------------------------------------------
   def shrink(self, case):
     k = case.get('kind')
+    if k == 'loss':
+      if case['what'] == 'so':
+        st = case['sents']
+        for i in range(len(st)):
+          if len(st) > 1:
+            yield {**case, 'sents': st[:i] + st[i + 1:]}
+        for i, t in enumerate(st):
+          ws = t.split(' ')
+          if len(ws) > 1:
+            yield {**case, 'sents': st[:i] + [' '.join(ws[:-1])] + st[i + 1:]}
+        if case['nv'] != 2:
+          yield {**case, 'nv': 2, 'sents': [' '.join('w0' if w != 'zzz' else w for w in t.split(' ')) for t in st]}
+        if case['L'] != 3:
+          yield {**case, 'L': 3}
+      elif case['what'] == 'shk':
+        sn = case['snips']
+        for i in range(len(sn)):
+          if len(sn) > 1:
+            yield {**case, 'snips': sn[:i] + sn[i + 1:]}
+        for i, t in enumerate(sn):
+          if len(t) >= 2:
+            yield {**case, 'snips': sn[:i] + [t[:-2]] + sn[i + 1:]}
+      if case.get('seed', 0) > 3:
+        yield {**case, 'seed': case['seed'] % 3}
+      return
     if k == 'so_tok':
       ops, lens, st = case['ops'], case['lengths'], case['sents']
       if case['via'] != 'direct':
@@ -902,6 +958,210 @@ class C20(core.Property):
                    nontrivial=nontrivial, tags=('labels', task, 'pred=' + case['pred']),
                    key=f'C20/labels/{task}', detail=detail or None)
 
+  # ---- train losses follow the dataset's conventions --------------------------------------------
+  def _task(self, name):
+    """fedjax.training.tasks.get_task(name) with the download functions stubbed by in-memory clients."""
+    k = ('task', name)
+    if k in self._models:
+      return self._models[k]
+    import fedjax
+    from fedjax import datasets
+    from fedjax.training import tasks as tasks_mod
+
+    def obj(l):
+      a = np.empty([len(l)], dtype=object)
+      for i, v in enumerate(l):
+        a[i] = v
+      return a
+
+    rs = np.random.RandomState(11)
+    raw = {
+        'emnist': {b'0123456789abcdef:f2100_07': {'pixels': rs.rand(3, 28, 28).astype(np.float32),
+                                                  'label': np.array([1, 61, 0], np.int32)},
+                   b'0123456789abcdef:f3000_01': {'pixels': rs.rand(4, 28, 28).astype(np.float32),
+                                                  'label': np.array([7, 7, 33, 10], np.int32)}},
+        'shakespeare': {b'c0': {'snippets': obj([b'To be\r\n' * 12, b'', b'or not \x00 to be, that is the question 9' * 3])},
+                        b'c1': {'snippets': obj([b'a'])}},
+        'stackoverflow': {b'c0': {'tokens': obj([b'w0 zzz w1', b'w1', b' '.join([b'w0'] * 25)]),
+                                  'type': obj([b'question', b'answer', b'answer'])},
+                          b'c1': {'tokens': obj([b'w2 w2 zzz zzz w1 w0 w0', b'zzz']), 'type': obj([b'answer', b'question'])}},
+        'cifar100': {b'c0': {'image': rs.randint(0, 256, size=(3, 32, 32, 3)).astype(np.uint8),
+                             'label': np.array([5, 99, 0], np.int64), 'coarse_label': np.array([1, 2, 3], np.int64)}},
+    }
+    saved = {n: getattr(datasets, n).load_split for n in raw}
+    saved_vocab = datasets.stackoverflow.default_vocab
+    try:
+      for n in raw:
+        getattr(datasets, n).load_split = (lambda nn: (lambda *a, **kw: fedjax.InMemoryFederatedData(raw[nn])))(n)
+      datasets.stackoverflow.default_vocab = lambda n: ['w0', 'w1', 'w2']
+      train, test, model = tasks_mod.get_task(name)
+    finally:
+      for n in raw:
+        getattr(datasets, n).load_split = saved[n]
+      datasets.stackoverflow.default_vocab = saved_vocab
+    self._models[k] = (train, test, model)
+    return self._models[k]
+
+  @staticmethod
+  def _ce(logits, y):
+    lg = np.asarray(logits, np.float64)
+    mx = lg.max(-1, keepdims=True)
+    lse = (mx + np.log(np.exp(lg - mx).sum(-1, keepdims=True)))[..., 0]
+    return lse - np.take_along_axis(lg, np.asarray(y)[..., None].astype(np.int64), -1)[..., 0]
+
+  def _loss_checks(self, model, batch, V, rs, where, problems, ctx, pad=None, reduce=None, scale=None):
+    """reference equality, PAD-position invariance, all-PAD rows, row independence of model.train_loss."""
+    jnp = self.jnp
+    y = np.asarray(batch['y'])
+    B = y.shape[0]
+    jb = {k: jnp.asarray(v) for k, v in batch.items()}
+
+    def loss(lg, b=jb):
+      return np.asarray(model.train_loss(b, jnp.asarray(lg)), np.float64)
+
+    def close(u, v):
+      return u.shape == v.shape and bool(np.all(np.abs(u - v) <= 1e-4 * (1 + np.abs(v))))
+
+    logits = (3 * rs.normal(size=y.shape + (V,))).astype(np.float32)
+    try:
+      got = loss(logits)
+    except Exception as e:  # pylint: disable=broad-except
+      problems.append(f'{where}: train_loss raises {exc_enum(e)}: {str(e)[:120]}')
+      return None
+    if got.shape != (B,):
+      problems.append(f'{where}: train_loss has shape {got.shape} for a batch of {B}')
+      return None
+    ce = self._ce(logits, y)
+    if pad is None:
+      masked = ce
+    else:
+      nonpad = y != pad
+      masked = (ce * nonpad).mean(-1) if reduce == 'mean' else (ce * nonpad).sum(-1)
+    if scale is not None:
+      want = masked * scale
+      if not close(got, want):
+        problems.append(f'{where}: train_loss = {got.round(5).tolist()} on targets {y.tolist()}; the reference that '
+                        f'ignores PAD={pad} positions gives {want.round(5).tolist()}')
+    else:
+      # unknown constant factor (task configuration): rows must be proportional to the masked sum
+      nz = np.abs(masked) > 1e-9
+      ratios = got[nz] / masked[nz]
+      if nz.any() and (np.any(ratios <= 0) or np.any(np.abs(ratios - ratios[0]) > 1e-4 * abs(ratios[0]))):
+        problems.append(f'{where}: train_loss {got.round(5).tolist()} is not a constant multiple of the PAD-masked '
+                        f'cross-entropy sums {masked.round(5).tolist()} (targets {y.tolist()})')
+      if np.any(np.abs(got[~nz]) > 1e-6):
+        problems.append(f'{where}: train_loss {got.round(5).tolist()} is non-zero on rows without any non-PAD target')
+    if pad is not None:
+      ispad = y == pad
+      if ispad.any():
+        l2 = logits.copy()
+        l2[ispad] = (7 * rs.normal(size=(int(ispad.sum()), V)) + 5).astype(np.float32)
+        got2 = loss(l2)
+        if not close(got2, got):
+          problems.append(f'{where}: train_loss changes from {got.round(5).tolist()} to {got2.round(5).tolist()} when only '
+                          f'the predictions at PAD target positions change (targets {y.tolist()})')
+        ctx.count('loss_pad_invariance_checks')
+      allpad = ispad.reshape(B, -1).all(-1)
+      if allpad.any() and np.any(np.abs(got[allpad]) > 1e-6):
+        problems.append(f'{where}: train_loss {got.round(5).tolist()} is non-zero on all-PAD rows {np.where(allpad)[0].tolist()}')
+    # row independence: reverse the rows; replace all rows but one
+    if B > 1:
+      rev = {k: jnp.asarray(np.asarray(v)[::-1].copy()) for k, v in batch.items()}
+      got3 = loss(logits[::-1].copy(), rev)[::-1]
+      if not close(got3, got):
+        problems.append(f'{where}: train_loss of a row depends on its position in the batch')
+      r = int(rs.randint(B))
+      l4 = (3 * rs.normal(size=logits.shape)).astype(np.float32)
+      l4[r] = logits[r]
+      b4 = {k: np.asarray(v).copy() for k, v in batch.items()}
+      for k in b4:
+        b4[k][np.arange(B) != r] = np.roll(np.asarray(batch[k]), 1, axis=0)[np.arange(B) != r] if B > 2 else b4[k][np.arange(B) != r]
+      got4 = loss(l4, {k: jnp.asarray(v) for k, v in b4.items()})
+      if abs(got4[r] - got[r]) > 1e-4 * (1 + abs(got[r])):
+        problems.append(f'{where}: train_loss of row {r} changes when the other rows (targets and predictions) are replaced')
+    ctx.count('loss_checks')
+    return got
+
+  def _eval_loss(self, case, ctx):
+    what = case['what']
+    rs = np.random.RandomState(case['seed'])
+    problems = []
+    MP = 4
+
+    def padrows(a):
+      a = np.asarray(a)
+      n = max(MP - a.shape[0], 0)
+      return np.concatenate([a, np.zeros((n,) + a.shape[1:], a.dtype)], axis=0)
+
+    tags = ['loss', what]
+    if what == 'so':
+      nv, L, el = case['nv'], case['L'], case['el']
+      toks = np.empty([len(case['sents'])], dtype=object)
+      for i, t in enumerate(case['sents']):
+        toks[i] = t.encode()
+      out = self._so_preprocess(nv, L)({'tokens': toks})
+      batch = {'x': padrows(out['x']), 'y': padrows(out['y'])}
+      model, _ = self._model('stackoverflow_lstm', vocab_size=nv, expected_length=el)
+      where = (f'stackoverflow create_lstm_model(vocab_size={nv}, expected_length={el}) on the tokeniser output of '
+               f'{case["sents"]!r} (max_length {L}, batch padded to {MP} rows)')
+      self._loss_checks(model, batch, nv + 4, rs, where, problems, ctx, pad=int(self._tokenizer(nv).PAD),
+                        reduce='sum', scale=1.0 if el is None else 1.0 / el)
+      tags.append('expected_length=' + ('none' if el is None else 'set'))
+    elif what == 'shk':
+      snips = [bytes.fromhex(t) for t in case['snips']]
+      st, out = self._run_shk(snips, case['L'])
+      if st != 'ok':
+        return Outcome(oracle_fail=f'preprocess_client raised {out}', key='C20/shakespeare/tokeniser', tags=tuple(tags))
+      batch = {'x': padrows(out['x']), 'y': padrows(out['y'])}
+      model, _ = self._model('shakespeare_lstm')
+      where = f'shakespeare create_lstm_model on the tokeniser output of {snips!r} (sequence_length {case["L"]})'
+      self._loss_checks(model, batch, int(self.shk.VOCAB_SIZE), rs, where, problems, ctx, pad=int(self.shk.PAD),
+                        reduce='mean', scale=1.0)
+    elif what == 'cls':
+      name = case['model']
+      model, params = self._model(name)
+      batch = {k: np.asarray(v) for k, v in self._row_batch(name, rs, MP, 2).items()}
+      V = int(np.asarray(model.apply_for_eval(params, batch)).shape[-1])
+      self._loss_checks(model, batch, V, rs, f'{name} on a batch of its packaged preprocessing', problems, ctx, scale=1.0)
+      tags.append(name)
+    else:
+      name = case['task']
+      try:
+        train, test, model = self._task(name)
+      except Exception as e:  # pylint: disable=broad-except
+        return Outcome(oracle_fail=f'fedjax.training.tasks.get_task({name!r}) raises {exc_enum(e)} on synthetic clients: '
+                                   f'{str(e)[:160]}', key=f'C20/loss/task/{name}', tags=tuple(tags + [name]))
+      data = train if case['seed'] % 2 == 0 else test
+      cids = sorted(data.client_ids())
+      cid = cids[case['seed'] % len(cids)]
+      batch = {k: np.asarray(v) for k, v in next(iter(data.get_client(cid).padded_batch(batch_size=MP))).items()}
+      where = f'fedjax.training.tasks {name} model on a padded batch of synthetic client {cid!r}'
+      lms = [m.logits_mask for m in model.eval_metrics.values() if getattr(m, 'logits_mask', None) is not None]
+      if batch['y'].ndim == 2:
+        pad = int(self.shk.PAD) if 'SHAKESPEARE' in name else int(self.so.DefaultWordTokenizer.PAD)
+        V = len(lms[0]) if lms else int(batch['y'].max()) + 1
+        if int(batch['y'].max()) >= V:
+          problems.append(f'{where}: the pipeline emits label {int(batch["y"].max())}, the model has {V} outputs')
+        else:
+          self._loss_checks(model, batch, V, rs, where, problems, ctx, pad=pad,
+                            reduce='mean' if 'SHAKESPEARE' in name else 'sum',
+                            scale=1.0 if 'SHAKESPEARE' in name else None)
+      else:
+        try:
+          params = self._models.setdefault(('task-params', name), model.init(self.jax.random.PRNGKey(3)))
+          V = int(np.asarray(model.apply_for_eval(params, batch)).shape[-1])
+        except Exception as e:  # pylint: disable=broad-except
+          problems.append(f'{where}: the model raises {exc_enum(e)} on the pipeline\'s batch: {str(e)[:120]}')
+          V = None
+        if V is not None:
+          if int(batch['y'].max()) >= V:
+            problems.append(f'{where}: label {int(batch["y"].max())} but {V} classes')
+          else:
+            self._loss_checks(model, batch, V, rs, where, problems, ctx, scale=1.0)
+      tags.append(name)
+    return Outcome(oracle_fail='; '.join(problems[:2]) or None, tags=tuple(tags),
+                   key='C20/loss/' + (case.get('task') or case.get('model') or what))
+
   # ---- StackOverflow tokeniser: one tokenizer, several preprocessors ---------------------------
   def _eval_so_tok(self, case, ctx):
     import shutil
@@ -1126,6 +1386,9 @@ class C20(core.Property):
             'stackoverflow tokeniser': 'one tokenizer, 1..3 preprocessors with different max_length, create/use '
                                        'interleavings (create-use, all-created-first, reordered, random), direct / '
                                        'raw tf.function / lazy SQLite-backed FederatedData',
+            'train losses': 'all fedjax.training.tasks configurations (downloads stubbed), StackOverflow with '
+                            'expected_length in {None, 0.5, 1, 2.5, 13.3, 20}, Shakespeare, classifiers: reference, '
+                            'PAD-position invariance, all-PAD rows, row independence',
             'partial': 'row independence monitored by metamorphic tests only; label agreement = decidable '
                        'configuration predicate + behavioural oracle'}
 
